@@ -618,3 +618,5 @@ func AdvanceClock(d int64) { time.Sleep(time.Duration(d)) }
 func ForkGoroutineOrder(on bool) {}
 
 func Rec(key string) string { return "" }
+
+func ModelOpensKeepLockGuard() bool { return true }
